@@ -9,6 +9,7 @@
 package c15
 
 import (
+	"github.com/ethereum/go-ethereum/crypto"
 	"sort"
 	banktypes "github.com/cosmos/cosmos-sdk/x/bank/types"
 	"bytes"
@@ -533,6 +534,32 @@ func aggregateProposals(r *ev.Run, h *c07.Host, max int) (evals, nontrivial int6
 			m := c13.Meta("ccoin", nm)
 			m.DenomUnits = m.DenomUnits[:1]
 			h.C.App.BankKeeper.SetDenomMetaData(ctx, m)
+		})
+	}
+	// the external token changes its behaviour between submission and execution (an upgradeable token): at the same
+	// address a contract that still answers two of name()/symbol()/decimals() with a string and reverts on the third
+	for _, q := range []struct {
+		what string
+		sel  []byte
+	}{{"decimals()", []byte{0x31, 0x3c, 0xe5, 0x67}}, {"symbol()", []byte{0x95, 0xd8, 0x9b, 0x41}}, {"name()", []byte{0x06, 0xfd, 0xde, 0x03}}} {
+		q := q
+		states["the external erc20 now reverts on "+q.what] = mk(func(ctx sdk.Context) {
+			world.DeployERC20From(h.C, ctx, deployer, "ext")
+			world.DeployERC20From(h.C, ctx, deployer, "ext")
+			code := append([]byte{0x60, 0x00, 0x35, 0x60, 0xe0, 0x1c, 0x63}, q.sel...)
+			code = append(code, 0x14, 0x60, 0x42, 0x57, 0x60, 0x20, 0x60, 0x00, 0x52, 0x60, 0x01, 0x60, 0x20, 0x52, 0x7f, 'x')
+			code = append(code, make([]byte, 31)...)
+			code = append(code, 0x60, 0x40, 0x52, 0x60, 0x60, 0x60, 0x00, 0xf3, 0x5b, 0x60, 0x00, 0x60, 0x00, 0xfd)
+			if len(code) != 0x42+6 {
+				panic(fmt.Sprintf("faulty token runtime is %d bytes", len(code)))
+			}
+			codeHash := crypto.Keccak256Hash(code)
+			h.C.App.EvmKeeper.SetCode(ctx, codeHash.Bytes(), code)
+			acc := h.C.App.EvmKeeper.GetAccount(ctx, erc)
+			acc.CodeHash = codeHash.Bytes()
+			if err := h.C.App.EvmKeeper.SetAccount(ctx, erc, *acc); err != nil {
+				panic(err)
+			}
 		})
 	}
 	addrs := map[string]string{"external erc20": erc.Hex(), "second erc20": erc2.Hex(), "module-owned token": modTok.Hex(), "an account without code": deployer.Hex(),
